@@ -247,6 +247,11 @@ func calleeShortName(cc *ssa.CallCommon) string {
 		return f.Name()
 	case *ssa.MakeClosure:
 		return f.Fn.Name()
+	case *ssa.UnOp:
+		// a function value held in a named local variable (e.g. `encode := func(...)`): anchors use the variable name
+		if al, ok := f.X.(*ssa.Alloc); ok && al.Comment != "" {
+			return al.Comment
+		}
 	}
 	return cc.Value.Name()
 }
@@ -470,6 +475,10 @@ func (e *Engine) modularCall(s *State, fr *Frame, c *FuncContract, key string, s
 	w.Readers = map[int]bool{}
 	e.havocWrites(s, fr, w, "call."+sanitize(shortKey(key)))
 	rv := e.freshResults(s, sig, shortKey(key))
+	if c.Flags["fresh_result"] != "" {
+		// constructor contract: every pointer result is a newly allocated object (distinct from all existing ones)
+		rv = e.freshenPointerResults(rv)
+	}
 	// bind results
 	var results []Value
 	if tv, ok := rv.(*Tuple); ok {
